@@ -191,6 +191,7 @@ type Result struct {
 	Obs     []string `json:"obs"`
 	Reach   []string `json:"reach"`
 	Missing []string `json:"missing"`
+	Alloc   uint64   `json:"alloc_bytes"` // bytes allocated while the entry ran (last attempt)
 }
 
 // TB is the part of *testing.T used here (keeps "testing" out of non-test builds).
@@ -240,6 +241,8 @@ func RunNative(t TB, name string, entry func(*T)) {
 		for a := 0; a < attempts; a++ {
 			v = &T{draws: in.Draws, File: f}
 			res = Result{}
+			var ms0, ms1 runtime.MemStats
+			runtime.ReadMemStats(&ms0)
 			func() {
 				defer func() {
 					if r := recover(); r != nil {
@@ -251,6 +254,8 @@ func RunNative(t TB, name string, entry func(*T)) {
 				}()
 				entry(v)
 			}()
+			runtime.ReadMemStats(&ms1)
+			res.Alloc = ms1.TotalAlloc - ms0.TotalAlloc
 			if len(v.Failed) > 0 || res.Panic != "" {
 				break
 			}
